@@ -3,6 +3,7 @@ import Driver.Suites.Blocks
 import Driver.Suites.Tier
 import Driver.Suites.Trkwire
 import Driver.Suites.Announcer
+import Driver.Suites.Replies
 /-! Table of suites known to the driver.  One line per suite (merge=union friendly). -/
 namespace Driver
 def registry : List Suite := [
@@ -10,5 +11,6 @@ def registry : List Suite := [
   Suites.Tier.suite,
   Suites.Trkwire.suite,
   Suites.Announcer.suite,
+  Suites.Replies.suite,
 ]
 end Driver
